@@ -425,7 +425,7 @@ func c11Cases(l *evlog.Log) []c11Case {
 	rng := l.Rand("c11wire")
 	dials := l.Pick(3, 4)
 	for _, id := range quicworld.QUICIDNames {
-		for v := 0; v < l.Pick(6, 40); v++ {
+		for v := 0; v < l.Pick(12, 40); v++ {
 			c := c11Case{Name: fmt.Sprintf("quicid/%s/%d", id, v), QUICID: id, Dials: dials, IDsFirst: v%2 == 1, Randomize: v%3 == 2}
 			switch v % 6 {
 			case 1:
@@ -441,7 +441,7 @@ func c11Cases(l *evlog.Log) []c11Case {
 		}
 	}
 	hellos := []string{"small", "pad512", "mid", "pq"}
-	for i := 0; i < l.Pick(800, 40000); i++ {
+	for i := 0; i < l.Pick(5000, 40000); i++ {
 		list := specgen.GenList(rng, 14)
 		c := c11Case{Name: fmt.Sprintf("gen/%05d", i), Hello: hellos[rng.IntN(len(hellos))], List: list, Suppress: specgen.GenSuppress(rng, list),
 			Randomize: rng.IntN(2) == 0, SCID: []int{0, 3, 8, 20}[rng.IntN(4)], IDsFirst: rng.IntN(2) == 0, Dials: dials}
